@@ -22,10 +22,13 @@
 (*     running" = the pod object exists and its phase is neither Succeeded nor Failed;              *)
 (*  R3 D10: the pod controller moves a fixed-IP record of a vanished pod to Detaching from Initial, *)
 (*     Unbind or Binding too.  These edges are not in the documented machine; they detach nothing   *)
-(*     that is in use (NeverPull below still applies) and end in Unbind.  Tolerated iff Lenient;    *)
+(*     that is in use (NeverPull below still applies), end in Unbind, and Initial -> Detaching is    *)
+(*     the only way a half-attached record of a vanished pod is ever released.  Tolerated iff       *)
+(*     Lenient and the record is not bound to a running pod instance;                               *)
 (*  R4 "the controller last observed the pod" = the PodENI controller marked the record Bind for    *)
-(*     it, or its collector found a pod of that name whose sandbox has not exited.  A record that   *)
-(*     never reached Bind and was never seen by the collector has no observation (its               *)
+(*     it (counted from the start of that reconcile), or its collector, working through a list that *)
+(*     contains this fixed-IP record, found a pod of that name whose sandbox has not exited.  A     *)
+(*     record that never reached Bind and was never seen by the collector has no observation (its   *)
 (*     status.podLastSeen is unset as well) and is not protected by the TTL;                        *)
 (*  R5 status.podLastSeen has second granularity: Slack (1 s) is granted on the TTL comparison;     *)
 (*  R6 an allocation whose releaseAfter does not parse or is negative, or whose strategy is         *)
@@ -77,7 +80,7 @@ Documented == {<<"Initial", "Bind">>, <<"Bind", "Detaching">>, <<"Detaching", "U
                <<"Unbind", "Binding">>, <<"Binding", "Bind">>, <<"Deleting", "Removed">>}
               \cup { <<x, "Deleting">> : x \in LivePhases }
 D10Edges == {<<"Unbind", "Detaching">>, <<"Initial", "Detaching">>, <<"Binding", "Detaching">>}      \* R3
-EdgeOK(a, b) == a = b \/ <<a, b>> \in Documented \/ (Lenient /\ <<a, b>> \in D10Edges)
+EdgeOK(n, a, b) == a = b \/ <<a, b>> \in Documented \/ (Lenient /\ <<a, b>> \in D10Edges /\ ~Live(n))
 
 (* does allocation a of record n still say "keep" at time t ?  (R4, R5, R6) *)
 KeepSays(n, a, t) == a.fixed /\ ( a.strat = "Never" \/ (a.strat = "TTL" /\ a.ttl >= 0 /\ obs[n] + a.ttl > t + Slack) )
@@ -146,7 +149,7 @@ PeWrite(t, c, who, n, post) ==
     /\ Adv(t) /\ (pre.ex \/ post.ex)                                                                     \* (I)
     /\ IF ~pre.ex
        THEN /\ G("C10", Eff(post) = "Initial")                                                           \* a record is born Initial
-       ELSE /\ G("C10", EdgeOK(Eff(pre), Eff(post)))                                                     \* documented phase machine
+       ELSE /\ G("C10", EdgeOK(n, Eff(pre), Eff(post)))                                                     \* documented phase machine
             /\ G("C10", ~post.ex => \A e \in AllocEnis(pre) : ~eni[e].ex)                                 \* record disappears only after its interfaces are deleted
             /\ G("C11", post.ex => post.allocs = pre.allocs)                                             \* same interfaces, same addresses
             /\ G("C11", Eff(pre) # "Deleting" /\ Eff(post) \in {"Deleting", "Removed"} => MayRemove(n, t))   \* kept until TTL / forever
